@@ -280,23 +280,22 @@ class SmallVector {
    **/
   template <typename... Args>
   reference emplace_back(Args&&... args) {
-    T* ptr;
-    if (isInline()) {
-      size_type sz = rawSize();
-      if (sz < N) {
-        ptr = inlineData();
-      } else {
-        growToHeap(N * 2);
-        ptr = storage_.heap_.ptr;
-      }
-    } else {
-      size_type sz = rawSize();
-      if (sz == storage_.heap_.capacity) {
-        growToHeap(storage_.heap_.capacity * 2);
-      }
-      ptr = storage_.heap_.ptr;
-    }
     size_type idx = rawSize();
+    if (idx == capacity()) {
+      // Construct the new element in the new block before the existing elements are relocated:
+      // the arguments may refer to an element of this vector (v.push_back(v[0])), which the
+      // relocation moves from and destroys.
+      size_type newCap = capacity() * 2;
+      BlockGuard guard{allocate(newCap)};
+      new (guard.ptr + idx) T(std::forward<Args>(args)...);
+      T* newData = guard.ptr;
+      guard.ptr = nullptr;
+      relocateToHeap(newData, newCap);
+      ++size_;
+      assert(rawSize() > 0 && "Size overflow into heap bit");
+      return newData[idx];
+    }
+    T* ptr = data();
     new (ptr + idx) T(std::forward<Args>(args)...);
     // Increment preserves heap bit naturally
     ++size_;
@@ -345,8 +344,16 @@ class SmallVector {
    **/
   void resize(size_type count, const T& value) {
     size_type sz = rawSize();
-    if (count > sz) {
+    if (count > capacity()) {
+      // Reallocation would invalidate a value that refers to an element of this vector.
+      const T copy(value);
       ensureCapacity(count);
+      T* ptr = data();
+      for (size_type i = sz; i < count; ++i) {
+        new (ptr + i) T(copy);
+      }
+      setSize(count);
+    } else if (count > sz) {
       T* ptr = data();
       for (size_type i = sz; i < count; ++i) {
         new (ptr + i) T(value);
@@ -445,10 +452,24 @@ class SmallVector {
     }
   }
 
+  // Releases a freshly allocated block unless ownership was taken (ptr reset to nullptr).
+  struct BlockGuard {
+    T* ptr;
+    ~BlockGuard() {
+      if (ptr) {
+        deallocate(ptr);
+      }
+    }
+  };
+
   // Grow to heap storage with the specified capacity.
   // Moves existing elements, frees old heap if applicable, sets heap bit.
   void growToHeap(size_type newCap) {
-    T* newData = allocate(newCap);
+    relocateToHeap(allocate(newCap), newCap);
+  }
+
+  // Move the existing elements into newData (a block from allocate(newCap)) and adopt it.
+  void relocateToHeap(T* newData, size_type newCap) {
     T* oldData = data();
     size_type sz = rawSize();
 
